@@ -379,6 +379,27 @@ func (engine) Body(r *simdrv.Run) {
 		return
 	}
 
+	// reach accounting
+	if w.setMP != nil {
+		for _, op := range w.meas {
+			if op.ret != 0 && op.inv < w.setMP.Ret && op.ret > w.setMP.Inv {
+				r.Fault("measurement-overlapping-installation")
+			}
+		}
+		for _, h := range w.handles {
+			if h.inv < w.setMP.Ret && h.ret > w.setMP.Inv {
+				r.Fault("instrument-created-during-installation")
+			}
+		}
+		for _, cb := range w.cbs {
+			if cb.unInv != 0 && cb.unInv < w.setMP.Ret && cb.unRet > w.setMP.Inv {
+				r.Fault("unregister-overlapping-installation")
+			}
+			if cb.regInv < w.setMP.Ret && cb.regRet > w.setMP.Inv {
+				r.Fault("register-callback-overlapping-installation")
+			}
+		}
+	}
 	// ---- oracle ----
 	// decode the final cumulative collection per (scope, metric)
 	got := map[string]int64{}
